@@ -144,12 +144,16 @@ def snapshot(w):
 _G0 = []
 
 
+def tables_fp():
+    """the module-level drag tables (the only module state the statement protects: 'drag tables passed in').
+    Other module/class level state may legitimately change (e.g. a memo cache) as long as results do not."""
+    import py_ballisticcalc.drag_tables as dt
+    return H.digest(tuple((k, repr(v)) for k, v in sorted(vars(dt).items()) if k.startswith('Table')))
+
+
 def global0():
-    """library module/class level state in a fresh world; no operation may ever change it"""
     if not _G0:
-        from mc import core
-        core.fresh_world()
-        _G0.append(H.digest(H.global_fp(display=True)))
+        _G0.append(tables_fp())
     return _G0[0]
 
 
@@ -177,8 +181,8 @@ def transition(w, op, label, swapped_d):
         for wn in ('W1.zero', 'W2.zero'):
             if before[wn] != after[wn]:
                 out.append(f'{label}: failed zeroing {op} changed the stored zero {wn}')
-    if H.digest(H.global_fp(display=True)) != g_before:
-        out.append(f'{label}: operation {op} changed library module-level or class-level state')
+    if tables_fp() != g_before:
+        out.append(f'{label}: operation {op} changed a module-level drag table')
     return got, out
 
 
@@ -223,6 +227,8 @@ def histories(cell):
         for m in msgs:
             if len(out) < 3:
                 out.append({'msg': m, 'key': None, 'history': h})
+        if len(out) >= 3:
+            break
     return {'v': out, 'n': n, 'states': n, 'transitions': n, 'traces': n, 'nt': cell if nt else None, 'obs': sorted(outcomes)}
 
 
@@ -308,6 +314,9 @@ def explore(ctx):
                     nxt.append(hist_ + [i])
         depth += 1
         frontier = nxt
+        if ctx.viol:
+            ctx.cap(f'closure BFS stopped at depth {depth}: violations found')
+            break
         if frontier and (len(seen) > cap_states or time.time() - t0 > cap_s):
             ctx.cap(f'closure BFS stopped after depth {depth} with {len(seen)} states (cap {cap_states} states / {cap_s} s); all states up to that depth were fully expanded')
             break
@@ -317,6 +326,9 @@ def explore(ctx):
     ctx.extra['closure_closed'] = not frontier
     # E4
     from mc.checks import c10_sched
+    if ctx.viol:
+        ctx.cap('schedule exploration skipped: sequential histories already violate the property')
+        return
     c10_sched.explore(ctx)
 
 
